@@ -23,6 +23,22 @@ def impl(case):
             out[name] = {"exc": type(e).__name__, "msg": str(e)[:200]}
     chart("agenda", lambda: g.agenda())
     chart("naive", lambda: g.naive_bottom_up())
+    # the same grammar object GROWN after a first evaluation: a prefix of the rule list is evaluated, the remaining
+    # rules are added with `add`, and the evaluators run again (anything memoised per object must follow the rule list)
+    k = case.get("split")
+    if k is not None:
+        def grown():
+            part = dict(case["cfg"], rules=case["cfg"]["rules"][:k])
+            h = common.mk_cfg(part, R)
+            try:
+                h.agenda(); h.naive_bottom_up()
+            except Exception:  # noqa  (the partial grammar may diverge or be empty: only the final answer is compared)
+                pass
+            for w, hd, b in case["cfg"]["rules"][k:]:
+                h.add(common.mk_w(w, R), common.dec_sym(hd), *[common.dec_sym(y) for y in b])
+            return h
+        chart("agenda_grown", lambda: grown().agenda())
+        chart("naive_grown", lambda: grown().naive_bottom_up())
     try:
         out["treesum"] = common.enc_w(common.mk_cfg(case["cfg"], R).treesum(), R)
     except Exception as e:  # noqa
@@ -50,7 +66,8 @@ def make_case(rng, i, tier):
         desc = gen.to_bool(desc)
     if R == "MaxTimes":
         desc = {**desc, "rules": [[w if common.num(w) <= 1 else "1", h, b] for w, h, b in desc["rules"]]}
-    return {"id": i, "shape": shape, "R": R, "cfg": desc}
+    split = rng.randint(1, max(1, len(desc["rules"]) - 1)) if rng.random() < 0.5 and len(desc["rules"]) >= 2 else None
+    return {"id": i, "shape": shape, "R": R, "cfg": desc, "split": split}
 
 
 def zn_eval(ctx, items, op="zn"):
@@ -104,7 +121,7 @@ def run(ctx):
             if res is None or "exc" in res:
                 semantic.append(_viol(c, hs, "worker", None, None, res))
                 continue
-            for name in ("agenda", "naive"):
+            for name in ("agenda", "naive") + (("agenda_grown", "naive_grown") if c.get("split") is not None else ()):
                 ch = res[name]
                 if isinstance(ch, dict):
                     semantic.append(_viol(c, hs, name, None, None, ch))
